@@ -60,7 +60,7 @@ type c13Ev struct {
 	A       string   `json:"a,omitempty"`
 	B       string   `json:"b,omitempty"`
 	Order   []string `json:"order,omitempty"` // observed order of Commit calls
-	Fault   string   `json:"fault,omitempty"` // none | fail | failctx | stop | logerr | logstop | sweepat (what actually fired)
+	Fault   string   `json:"fault,omitempty"` // none | fail | failctx | okctx | stop | logerr | logstop | sweepat (what actually fired)
 	K       int      `json:"k"`
 	Want    string   `json:"want,omitempty"` // requested fault (replay input; ignored by the model)
 	WantK   int      `json:"wantk,omitempty"`
@@ -153,6 +153,12 @@ func (d *c13Deco) Commit(ctx context.Context, e orm.DIDChangeLog) error {
 		return errC13Injected
 	}
 	err := d.MethodManager.Commit(ctx, e)
+	if in.mode == "okctx" && d.name == "nuts" && err == nil && in.cancel != nil {
+		// did:nuts has published; the request ends (client gone / deadline) before the remaining methods are committed
+		in.fired = true
+		in.k = in.calls // the context is dead from this Commit call on
+		in.cancel()
+	}
 	if in.mode == "stop" && in.k == in.n && in.calls == in.n && err == nil {
 		in.fired = true
 		panic(c13Stop{})
@@ -614,6 +620,9 @@ func (w *c13World) run(ev c13Ev) (c13Ev, string) {
 		ev.Fault, ev.K = "none", 0
 		if w.inj.fired {
 			ev.Fault, ev.K = want, wantK
+			if want == "okctx" {
+				ev.K = w.inj.k // number of Commit calls made with the live context
+			}
 		}
 		if w.inj.mode == "tx2err" || w.inj.mode == "failtx2" {
 			w.inj.mode = "none" // the DB error hits this operation's clean-up only, not a later sweep
@@ -961,6 +970,8 @@ func TestVerifC13(t *testing.T) {
 	c13RequestWorlds(rng2, thorough, exec)
 	c13CleanupWorlds(rng2, thorough, exec)
 	c13SortWorld(rng2, thorough, exec)
+	c13CtxWorlds(thorough, exec)
+	c13NameWorlds(thorough, exec)
 	for i, seq := range fixed {
 		for c, m := range c13Configs {
 			// every cut with both methods; on the single-method nodes every cut of the create, a third of the cuts of the longer ones (quick)
@@ -1142,6 +1153,67 @@ func c13CleanupWorlds(rng *rand.Rand, thorough bool, exec func([]c13Ev)) {
 				evs = append(evs, bad, c13Ev{Op: "sweep"}, c13Ev{Op: "tick", D: 70}, c13Ev{Op: "sweep"}, op, do("addsvc", "s1", "C", ""), c13Ev{Op: "tick", D: 70}, c13Ev{Op: "sweep"})
 				exec(evs)
 			}
+		}
+	}
+}
+
+// c13CtxWorlds: the request context ends right after did:nuts has published (client disconnect / deadline), before the
+// remaining method managers are committed and before the clean-up transaction. Nothing after the first transaction may
+// depend on the request being alive: the run must look exactly like the fault-free one (own `plain` world per sequence).
+func c13CtxWorlds(thorough bool, exec func([]c13Ev)) {
+	seqs := [][]c13Ev{
+		{do("create", "s1", "", "")},
+		{do("create", "s1", "", ""), do("addsvc", "s1", "A", ""), do("addkey", "s1", "", ""), do("deact", "s1", "", "")},
+		{do("create", "s1", "", ""), do("addsvc", "s1", "A", ""), do("updsvc", "s1", "A", "B"), do("delsvc", "s1", "B", ""), do("create", "s2", "", ""), do("addkey", "s2", "", "")},
+	}
+	cfgs := [][]string{{"nuts", "web"}, {"web", "nuts"}, {"nuts"}}
+	for si, seq := range seqs {
+		for ci, m := range cfgs {
+			if !thorough && ci == 2 && si != 1 {
+				continue
+			}
+			sid := fmt.Sprintf("x%d.%d", si, ci)
+			tail := []c13Ev{{Op: "tick", D: 70}, {Op: "sweep"}}
+			exec(append(append([]c13Ev{{Op: "cfg", Methods: m, Tag: "plain:" + sid}}, seq...), tail...))
+			for j := range seq {
+				// the commit order is random per call: two tries per cut
+				for try := 0; try < 2; try++ {
+					v := append([]c13Ev{{Op: "cfg", Methods: m, Tag: fmt.Sprintf("ctx:%d:%s", j, sid)}}, seq[:j]...)
+					bad := seq[j]
+					bad.Fault = "okctx"
+					v = append(v, bad)
+					v = append(v, seq[j+1:]...)
+					exec(append(v, tail...))
+				}
+			}
+		}
+	}
+}
+
+// c13NameWorlds: subject names that differ only in case or only where one of them has '_' / '.' / '-' (all allowed by the
+// subject pattern; '_' and '%' are wildcards and case is ignored where a store compares with LIKE). Every name is its own subject:
+// each gets its own DIDs, and an operation (completed, failed, rolled back, repeated) on one changes nothing of the others.
+func c13NameWorlds(thorough bool, exec func([]c13Ev)) {
+	fail := func(e c13Ev) c13Ev { e.Fault = "fail"; return e }
+	stop := func(e c13Ev, k int) c13Ev { e.Fault, e.K = "stop", k; return e }
+	for ci, m := range [][]string{{"nuts", "web"}, {"web", "nuts"}, {"nuts"}, {"web"}} {
+		if !thorough && ci == 2 {
+			continue
+		}
+		for vi, names := range [][4]string{{"a_1", "a-1", "A_1", "a.1"}, {"a-1", "a_1", "a.1", "A-1"}, {"Zz_", "zz_", "ZZ_", "zz-"}} {
+			if !thorough && vi > 0 && ci > 0 {
+				continue
+			}
+			n0, n1, n2, n3 := names[0], names[1], names[2], names[3]
+			evs := []c13Ev{{Op: "cfg", Methods: m, Tag: fmt.Sprintf("names:%d.%d", ci, vi)},
+				do("create", n0, "", ""), do("create", n1, "", ""), do("create", n2, "", ""), do("create", n0, "", ""),
+				do("addsvc", n0, "A", ""), do("addkey", n1, "", ""),
+				fail(do("addsvc", n0, "B", "")), {Op: "tick", D: 70}, {Op: "sweep"}, do("addsvc", n0, "B", ""),
+				stop(do("addsvc", n1, "C", ""), 0), {Op: "tick", D: 70}, {Op: "sweep"}, do("addsvc", n1, "C", ""),
+				do("create", n3, "", ""), do("updsvc", n2, "A", "B"), do("delsvc", n0, "A", ""), fail(do("addkey", n2, "", "")), do("addkey", n2, "", ""),
+				do("deact", n0, "", ""), do("addsvc", n1, "A", ""), do("addsvc", n3, "A", ""), do("deact", n2, "", ""),
+				{Op: "tick", D: 70}, {Op: "sweep"}}
+			exec(evs)
 		}
 	}
 }
